@@ -372,8 +372,12 @@ impl G2Affine {
     /// `from_uncompressed()` instead.
     fn from_uncompressed_unchecked(bytes: &[u8; UNCOMPRESSED_SIZE]) -> CtOption<Self> {
         let mut raw = blst_p2_affine::default();
-        let success =
-            unsafe { blst_p2_deserialize(&mut raw, bytes.as_ptr()) == BLST_ERROR::BLST_SUCCESS };
+        // `blst_p2_deserialize` dispatches on the compression flag: when it is set, it
+        // decompresses the first half of the input and ignores the rest. Such an input is not
+        // an uncompressed encoding.
+        let uncompressed_form = bytes[0] & 0x80 == 0;
+        let success = uncompressed_form
+            && unsafe { blst_p2_deserialize(&mut raw, bytes.as_ptr()) == BLST_ERROR::BLST_SUCCESS };
         CtOption::new(G2Affine(raw), Choice::from(success as u8))
     }
 
